@@ -1,8 +1,134 @@
-NOT_APPLICABLE = {}
-_note = "trusts CPython, the stdlib, mashumaro/orjson/msgpack/yaml/lark as black boxes, and the small reference model inside the check (itself exercised by the seeded-defect self-test); says nothing about inputs the generators do not produce"
+NOT_APPLICABLE: dict = {}
+_note = (
+    "trusts CPython, the stdlib, mashumaro/orjson/msgpack/yaml/lark as black boxes, and the small reference model inside the "
+    "check (itself exercised by the seeded-defect self-test, see DESIGN.md §3 and seeded/); says nothing about inputs the "
+    "generators do not produce; verdict = held on the executions observed"
+)
+
+
+def _e(level, ref, technique, text):
+    return dict(level=level, design_ref=ref, technique=technique, text=text, note=_note)
+
+
 TABLE = {
- "C05": dict(level="exploration", design_ref="DESIGN.md §1 C05",
-   technique="runtime monitoring: reference-walker oracle over generated trees, predicate call-log monitor, exhaustive prune/filter subsets on small trees",
-   text="Every dfs/bfs/gather/children execution on generated trees (all child-field shapes, shared objects, falsy children, multiple inheritance, deep chains, wide tuples) is compared position-by-position (object identity) with a 20-line reference walker computed from the tree spec; the predicates' call logs are monitored for 'pruned nodes are offered to the filter, their descendants never are'. Exhaustive over all (prune, filter) subsets for small trees, sampled otherwise.",
-   note=_note),
+    "C01": _e(
+        "exploration",
+        "DESIGN.md §1 C01",
+        "runtime monitoring: spec-derived canonical content key vs observed content_id (hash join over all pairs of a pool), cross-process join under different hash seeds and field orders",
+        "Every node built from mutation-grown pools (single edits of value, type, order, class, origin, separator re-splits) is recorded as (canonical key from the spec, class, content_id); two hash joins decide key-equality <=> content_id-equality for every pair of the pool and of all shards together (different PYTHONHASHSEED, reversed field declaration order); is_equal is sampled both ways; content_id is re-read after all other operations (lifetime constancy).",
+    ),
+    "C02": _e(
+        "exploration",
+        "DESIGN.md §1 C02",
+        "runtime monitoring: reference equality (content key + per-position origin canon from the spec) vs observed ==, !=, hash on generated pairs and triples",
+        "For pools grown from seed trees by changing exactly one origin at one position (any depth, inside tuples and single fields, all origin kinds) and by content edits, a == b is compared with the spec-level reference for all pairs of a pool, with symmetry, != as negation, transitivity on triples, non-node / other-class comparisons and hash constancy.",
+    ),
+    "C03": _e(
+        "exploration",
+        "DESIGN.md §1 C03",
+        "runtime monitoring: shadow-model of the registry updated by the documented effect of each operation; NODE_REGISTRY compared object-identically after every operation of generated histories; weakref liveness after gc; digest sizes 8, 2, 1",
+        "Random histories over a harness-owned handle table (construct twins, duplicate, dataclasses.replace, ASTNode.replace ok/failing, detach, detach_self on live and stale nodes, as_dict/as_obj, drop + gc) with ID_DIGEST_SIZE in {8,2,1}; after each step the whole registry must equal the model, get/get_any/strict agree, dropped nodes must die, failing replace must leave the registry unchanged, ids of fresh constructions are deterministic across shards and hash seeds.",
+    ),
+    "C04": _e(
+        "exploration",
+        "DESIGN.md §1 C04",
+        "runtime monitoring: dump-equality oracle (class, id, content_id, typed property values, origin canon, sharing partition) over dict/JSON/MessagePack/YAML round trips under every alive-subset, incl. fresh interpreter processes",
+        "Trees with hostile value generators (YAML-hostile strings, 64-bit boundaries, floats, enums, paths), all origin kinds, shared subtrees and forced collision-suffix ids are round-tripped through the four formats while all / some / none of the originals are alive (none also in a fresh process with another hash seed); identity of still-registered nodes, exact dumps of re-created ones, sharing and singletons are checked.",
+    ),
+    "C05": _e(
+        "exploration",
+        "DESIGN.md §1 C05",
+        "runtime monitoring: reference-walker oracle over generated trees, predicate call-log monitor, exhaustive prune/filter subsets on small trees",
+        "Every dfs/bfs/gather/children execution on generated trees (all child-field shapes, shared objects, falsy children, multiple inheritance, deep chains, wide tuples) is compared position-by-position (object identity) with a 20-line reference walker computed from the tree spec; the predicates' call logs are monitored for 'pruned nodes are offered to the filter, their descendants never are'. Exhaustive over all (prune, filter) subsets for small trees, sampled otherwise.",
+    ),
+    "C06": _e(
+        "exploration",
+        "DESIGN.md §1 C06",
+        "runtime monitoring: spec-derived parent map oracle; every unary Tree query for every node, binary queries for all ordered pairs, xpath follower, foreign-twin KeyError probes",
+        "For generated trees without repeated objects (== twins at different positions, chains, tuples with index >= 10) every Tree query is compared with the parent map computed from the spec, for all nodes and all ordered pairs; get_xpath is followed from the root by a 12-line interpreter and must be unique; registered foreign twins must raise KeyError / ValueError.",
+    ),
+    "C07": _e(
+        "exploration",
+        "DESIGN.md §1 C07",
+        "runtime monitoring: three-way agreement of findall, match (every node) and a top-down reference evaluator of the documented semantics on generated (xpath AST, tree) pairs",
+        "XPaths are generated as ASTs (1-4 steps, anywhere/field/index/class combinations, indices up to 14, relative spelling, '[]', '///'), rendered and evaluated by a reference evaluator on spec positions; multiset(findall), {n | match(root,n)}, find and the node front-ends must agree with it on every tree.",
+    ),
+    "C08": _e(
+        "exploration",
+        "DESIGN.md §1 C08",
+        "runtime monitoring: reference matcher interpreting the pattern AST over real nodes vs NodeMatcher / MultiPatternMatcher results (captures compared by identity); repeated-question history monitor for cache independence",
+        "Patterns are generated as ASTs (class alternatives, '*', field specs of every kind, nested patterns, sequences with/without tail one shorter/equal/longer than the data, captures everywhere admissible, variables) and rendered; a 60-line reference matcher decides each (pattern, node) question; repeated questions (hot cache, cold cache, after unrelated compiles) must give the first answer; MultiPatternMatcher is checked for rule order under permutations and subsets.",
+    ),
+    "C09": _e(
+        "exploration",
+        "DESIGN.md §1 C09",
+        "runtime monitoring: dispatch-log monitor vs MRO reference; reference bottom-up rewriter on the spec vs transform result (dump + object identity of unchanged subtrees); FRAME snapshot of the input incl. raising visitors",
+        "Recording visitors (strict/non-strict, methods on arbitrary subsets of the hierarchy incl. multiple inheritance) log every dispatch, compared with the reference method resolution; rule sets (keep/rewrite/replace/remove/raise per class) are applied by a reference rewriter to the spec and compared with ASTTransformVisitor.transform: result dump, identity of every unchanged subtree, newness of every ancestor of a change, removals at each tuple position, exception propagation and an unchanged input tree.",
+    ),
+    "C10": _e(
+        "exploration",
+        "DESIGN.md §1 C10",
+        "runtime monitoring: FRAME (identity snapshot of every field, id, content_id, hash of every pre-existing node) around every public operation of generated histories, sys.monitoring write watcher on object.__setattr__/__delattr__, icontract frame contracts over the repository's own tests",
+        "Histories over all public operations (traversal, Tree, xpath, pattern, visit/transform incl. raising, duplicate, replace ok/failing, detach, all serialization formats, ==, hash, rich) with a before/after identity snapshot of every field of every reachable pre-existing node; direct setattr/delattr on every field of every class must raise; a sys.monitoring CALL watcher records every object.__setattr__ on a pre-existing node; the repo's own 244 tests run under frame contracts.",
+    ),
+    "C11": _e(
+        "exploration",
+        "DESIGN.md §1 C11",
+        "runtime monitoring: reference classifier over generated annotation ASTs vs observed definition-time / first-use outcome and child/property field lists, across renderings (plain/postponed, inherited, overridden, forward references), fresh process per shard",
+        "Annotations are generated as ASTs over the statement's grammar (depth <= 2 enumerated completely, depth 3 sampled), rendered into single classes, inheritance chains and overrides, with and without postponed annotations and with forward references; the observed outcome (InvalidFieldAnnotations at definition or first use; membership in child / property lists) is compared with a 40-line reference classifier; a rejected annotation that instantiates successfully is the violation 'node hidden in a property'.",
+    ),
+    "C12": _e(
+        "exploration",
+        "DESIGN.md §1 C12",
+        "runtime monitoring: spec-derived accessor oracle over generated class hierarchies x order-of-first-use configurations x all 64 flag combinations",
+        "For generated hierarchies (1-3 levels, overrides, init=False, compare=False, kw_only, slots, multiple inheritance) every accessor (get_properties with all 2^5 flags x sort_keys, get_property_fields, get_child_nodes(_with_field), iter_child_fields, children, get_child_fields, to_properties_dict) is compared with the order/skip rules computed from the class spec, values by identity and fields by being the class's own Field object, for every order of first use among the classes.",
+    ),
+    "C13": _e(
+        "exploration",
+        "DESIGN.md §1 C13",
+        "runtime monitoring: reference conformance predicate over (annotation AST, value) pairs vs observed construction outcome with RUNTIME_TYPE_CHECK on and off",
+        "All (annotation, value) pairs for accepted annotations of depth <= 2 and a value pool containing both booleans, 0/1, floats, strings, None, enums, nodes, tuples and lists are constructed with checks on (success iff conforming, else InvalidTypes naming exactly the bad fields) and off (always success, same node); multi-field constructions mix conforming and non-conforming fields; repeated constructions in different orders detect history dependence.",
+    ),
+    "C14": _e(
+        "exploration",
+        "DESIGN.md §1 C14",
+        "runtime monitoring: dump/identity oracle for duplicate and replace (object-set disjointness, registry lookups, control construction for ids) on generated trees and registry states",
+        "duplicate() results are compared with the original position by position (==, dumps, no shared object at any depth, every copy registered, no id shared with a registered original); ASTNode.replace / dataclasses.replace results are checked for class, changed fields holding the given objects, all other init fields identical, registry effect and the id a control construction obtains, on registered and detached originals with and without twins.",
+    ),
+    "C15": _e(
+        "exploration",
+        "DESIGN.md §1 C15",
+        "runtime monitoring: exhaustive grid enumeration of the interval laws (pairs, triples, ill-formed inputs) + reference fold for '+', merge_origins, concat_origins over all origin kinds",
+        "All 28 ranges on a 7-index grid: all 784 pairs and 21952 triples for containment / overlap / order / hull laws, all ill-formed points and ranges; all ordered pairs over a 43-element pool of single origins exhaustively and random tuples of up to four origins (incl. multi operands) against a reference of '+', merge_origins and concat_origins; flatness, member identity/order, source / source-set, fqn composition and exact get_raw slices.",
+    ),
+    "C16": _e(
+        "fault_enumeration",
+        "DESIGN.md §1 C16",
+        "runtime monitoring with fault injection: option-slot invariant + default-output probe after every call of generated call histories; sys.monitoring LINE failpoints enumerated over every statement of the nested (de)serializers; recursive shape walker of every nested mapping",
+        "Histories of as_dict/as_obj/to_*/from_* calls with every option subset; after each call (returned or raised) the two process-global slots must be empty and an option-less probe serialization must equal the baseline; faults are enumerated: a raising property at each tree position, payload corruption at each nested mapping, and an injected exception at the k-th statement executed inside the callees for every k; outputs are walked mapping by mapping for the tag / sort / skip / explorer / index-source rules.",
+    ),
+    "C17": _e(
+        "exploration",
+        "DESIGN.md §1 C17",
+        "runtime monitoring: totality fuzz of the four compile entry points (outcome classification), grammar-derived acceptance, token-level mutations, whitespace metamorphic variants, recompile (cached / uncached / class defined later) behaviour vectors",
+        "Grammar-derived xpaths and patterns, single-token mutations, class-name faults, duplicate captures, variables before captures, invalid regexes and random strings are compiled through ASTXpath, validate_pattern, NodeMatcher.from_pattern and MultiPatternMatcher; only the definition errors may escape, the three pattern entry points must agree, well-formed texts must be accepted and behave like the C07/C08 references, inter-token whitespace and recompilation must not change the behaviour vector on a fixed panel.",
+    ),
+    "C18": _e(
+        "exploration",
+        "DESIGN.md §1 C18",
+        "runtime monitoring: structural invariant checker (I1-I5) over the live legacy forest after every successful operation of generated histories, with harness-side admissibility pre-check and faulthandler watchdog",
+        "Random histories of legacy operations (construct over children, attach, detach, detach_self, replace, replace_with node/None, duplicate, transform visitors, transformers) over attached, detached and stale receivers; after every successful operation parent links, stored positions, registry lookups, content_id vs an independently rebuilt tree and ancestors/depth/is_ancestor/xpath are checked for every handle.",
+    ),
+    "C19": _e(
+        "fault_enumeration",
+        "DESIGN.md §1 C19",
+        "runtime monitoring with fault enumeration: FRAME snapshot of the whole legacy forest around every rejected operation, the failing element placed at every position",
+        "Every documented rejection (duplicate children, parent collision, id/registry collision, forbidden replace keys, replace_with violations, attach failure, raising transforms) is provoked with the failing element first/middle/last, direct/nested, attached/detached; attached flag, parent/field/index, field identities, id, original_id, content_id of all pre-existing nodes and the registry map must be unchanged.",
+    ),
+    "C20": _e(
+        "exploration",
+        "DESIGN.md §1 C20",
+        "runtime monitoring: the C05 reference walker (with skip_self) and the C07 reference evaluator applied to attached legacy trees; calculate_xpath vs spec-derived paths",
+        "Legacy dfs/bfs/gather streams (skip_self x prune x filter x bottom_up, exhaustive subsets on small trees) and legacy ASTXpath.match for every node are compared with the references; malformed xpaths must raise the legacy definition error only; calculate_xpath must assign the spec-derived path to every node of an attached root.",
+    ),
 }
